@@ -75,6 +75,32 @@ def run(chk, binary):
                   "model_opts": [x for x in opts if not x.startswith("pooled")]}
         scs.append(sc)
         meta.append((faulty, kind, mode, backup))
+    # ---- a directory among the files (only a glob in a vic opts block lets one through): direct oracle only ----
+    dscs = []
+    for mode in MODES:
+        if any(x.startswith("pooled") for x in mode) and not thorough:
+            continue
+        for backup in (False, True):
+            for where in (1, 2):
+                names = ["a1.txt", "b2.txt", "c3.txt"]
+                vopts = ["edit_inplace", 'files = ["*.txt"]'] + (["linewise"] if "--linewise" in mode else []) + (["serial"] if "--serial" in mode else []) + (["backup"] if backup else [])
+                vopts += ['max_jobs="%s"' % x.split(":")[1] for x in mode if x.startswith("pooled")]
+                files = [(nm, rng.choice(GOOD).encode()) for i, nm in enumerate(names) if i != where]
+                dscs.append(({"files": files, "dirs": [names[where]], "opts": [], "cmds": ["opts { " + ", ".join(vopts) + " }\nmove \"x\"\n"], "stdin": None, "unnamed": [nm for nm, _ in files]}, mode, backup, where))
+    dobs = D.scenarios_map(binary, [x[0] for x in dscs])
+    for (sc, mode, backup, where), ob in zip(dscs, dobs):
+        chk.count(("c06-dir", tuple(mode), backup, where))
+        init = dict(sc["files"])
+        changed = [nm for nm, data in sc["files"] if ob["final"].get(nm) != data]
+        extra = [nm for nm in ob["final"] if nm not in init]
+        if ob["rc"] == 0:
+            chk.violation("spec:a run with a directory among its files exited successfully", {"script": sc["cmds"][0], "files": sorted(init), "dir": sc["dirs"]})
+        elif changed or extra:
+            if "--serial" in mode and all(nm < sc["dirs"][0] for nm in changed + [e.replace(".bak", "") for e in extra]):
+                chk.known("serial-driver", f"--serial rewrites the files before the first faulty one: vic opts serial, directory {sc['dirs'][0]}")
+            else:
+                chk.violation("spec:files changed although the run failed", {"script": sc["cmds"][0], "dir": sc["dirs"], "changed": changed, "half_backups": extra,
+                              "after": {k: v.decode(errors="replace") for k, v in ob["final"].items()}})
     obs = D.scenarios_map(binary, scs)
     model = D.eval_model("c06", [D.model_case(sc, ob) for sc, ob in zip(scs, obs)])
     dist = {}
